@@ -156,15 +156,17 @@ def run(pid, tier, seed, replay_path=None):
             raise Unsupported(f"translator validation failed ({len(mism)} mismatches), e.g. {mism[0]}")
 
         if pid == "C05":
-            cfgs = [(2, 10), (3, 8)] if tier == "quick" else [(2, 14), (3, 10)]
+            # (threads, schedule length, spurious wake-ups).  Measured: T=2 K=14 444 s, T=3 K=10 687 s; with spurious
+            # wake-ups T=2 K=14 gave `unknown` after 2314 s, so those variants run at the quick bounds.
+            cfgs = [(2, 10, False), (3, 8, False)] if tier == "quick" else [(2, 14, False), (2, 10, True), (3, 10, False), (3, 8, True)]
             wcl = workerloop.find_worker_closures(mir_text)
             forms = {k: workerloop.share_form(k, wcl[k]) for k in ("bfs", "dfs") if k in wcl}
             if len(forms) != 2 or len(set(forms.values())) != 1:
                 raise Unsupported(f"worker closures of bfs.rs and dfs.rs not found or sharing work differently: {forms}")
             share = forms["bfs"]
             info["client_automaton_share_rule"] = {"derived_from_worker_MIR": forms}
-            for T, K in cfgs:
-                for spurious in ([False] if tier == "quick" else [False, True]):
+            for T, K, spurious in cfgs:
+                for _once in (0,):
                     proto = Protocol(bm, T, spurious=spurious, share=share)
                     tag = f"T={T} K={K}" + (" +spurious wake-ups" if spurious else "")
                     r = checks.bmc(proto, K, 1500000)
@@ -563,7 +565,7 @@ EXPLAIN = {
 }
 BOUNDS = {
     "C05": {"quick": {"threads": "2 (K=10), 3 (K=8)", "jobs_per_queue": "<=6", "generated_per_block": "<=2", "market_batches": "<=4", "invariant": "inductive: any schedule length, T=2 and T=3"},
-            "thorough": {"threads": "2 (K=14), 3 (K=10)", "jobs_per_queue": "<=6", "generated_per_block": "<=2", "market_batches": "<=4", "variants": "with and without spurious wake-ups", "invariant": "inductive, T=2 and T=3"}},
+            "thorough": {"threads": "2 (K=14; K=10 with spurious wake-ups), 3 (K=10; K=8 with spurious wake-ups)", "jobs_per_queue": "<=6", "generated_per_block": "<=2", "market_batches": "<=4", "variants": "with and without spurious wake-ups", "invariant": "inductive, T=2 and T=3"}},
     "C12": {"quick": {"paths": "all paths of one loop iteration of the timeout thread, arbitrary market state and clock"}, "thorough": {"paths": "same (the check is not bounded in schedule length)"}},
 }
 OUTSIDE = {
